@@ -262,6 +262,10 @@ FINDING_PROBES = {
         entries=[dict(group="cond", kind="expr", text="(x and y) or z", canon="(x and y) or z"),
                  dict(group="cond", kind="expr", text="x and (y or z)", canon="x and (y or z)")],
         rounds=[{"model.x": "T", "model.y": "F", "model.z": "F"}]),
+    "findings/C08_bang_glued_to_keyword.json": dict(
+        id="K3", names={"x": [["model", "attr"]], "y": [["model", "attr"]]}, force_async=False, malformed=None,
+        entries=[dict(group="cond", kind="expr", text="x and!y", canon="x and not y")],
+        rounds=[{"model.x": "T", "model.y": "F"}]),
 }
 
 
